@@ -67,9 +67,9 @@ func genC19(seed uint64, tier, mode string) *C19Plan {
 	}
 	switch mode {
 	case "select":
-		n := 120
+		n := 400
 		if tier == "thorough" {
-			n = 600
+			n = 1500
 		}
 		// one policy dominates a run (the consistent-hash ring is a process-wide singleton)
 		main := simkit.Pick(g, c19Policies)
@@ -77,6 +77,10 @@ func genC19(seed uint64, tier, mode string) *C19Plan {
 			switch r := g.Intn(10); {
 			case r < 2:
 				p.Ops = append(p.Ops, C19Op{Op: "open", Addr: g.Intn(len(c19Addrs))})
+			case r < 3 && g.Bool():
+				// a connection dies and is re-established to the same address before
+				// the dead session has been released
+				p.Ops = append(p.Ops, C19Op{Op: "reopen", Idx: g.Intn(8)})
 			case r < 3:
 				p.Ops = append(p.Ops, C19Op{Op: "close", Idx: g.Intn(8)})
 			case r < 4:
@@ -164,7 +168,7 @@ func c19Select(seed uint64, tape *simkit.Tape, plan *C19Plan, res *Result) {
 			s := net.Open(c19Addrs[op.Addr])
 			all = append(all, s)
 			reg.Store(getty.Session(s), true)
-		case "close", "closeonly":
+		case "close", "closeonly", "reopen":
 			if len(all) == 0 {
 				continue
 			}
@@ -174,6 +178,11 @@ func c19Select(seed uint64, tape *simkit.Tape, plan *C19Plan, res *Result) {
 				reg.Delete(getty.Session(s))
 			}
 			s.Close()
+			if op.Op == "reopen" {
+				s2 := net.Open(s.RemoteAddr())
+				all = append(all, s2)
+				reg.Store(getty.Session(s2), true)
+			}
 		case "busy":
 			if op.Addr >= 0 && op.Addr < len(c19Addrs) {
 				rpc.BeginCount(c19Addrs[op.Addr])
